@@ -92,6 +92,33 @@ def root_of(expr):
     return expr
 
 
+def check_memo(run, ref, keyspace, rule="P2"):
+    fn, mod = ref.node, ref.mod
+    for dec in fn.decorator_list:
+        target = dec.func if isinstance(dec, ast.Call) else dec
+        dn = norm(target)
+        if dn not in MEMO:
+            continue
+        cap = None
+        unbounded = dn.endswith("cache") and not dn.endswith("lru_cache")
+        if isinstance(dec, ast.Call):
+            ms = next((k.value for k in dec.keywords if k.arg == "maxsize"), dec.args[0] if dec.args else None)
+            if ms is None:
+                cap = 128
+            elif isinstance(ms, ast.Constant) and ms.value is None:
+                unbounded = True
+            elif isinstance(ms, ast.Constant) and isinstance(ms.value, int):
+                cap = ms.value
+        elif not unbounded:
+            cap = 128
+        ok = unbounded or (cap is not None and cap >= keyspace)
+        run.ob(rule, ok, f"{ref}: memoisation `{norm(dec)}` is identity-stable",
+               f"`{norm(dec)}` keeps {cap} result(s) but is keyed by {keyspace} parameter-area classes: a later decode evicts the "
+               "synthesised type and re-creates it, so objects of two decodes of the same input (or the decoder's object and the "
+               "object rebuilt from its events) are of different types and compare unequal", module=mod, node=dec, func=ref.qual,
+               construct=f"@{norm(dec)}")
+
+
 def check(run, project):
     cg = CallGraph(project)
     L = ctx.layout(project)
@@ -175,29 +202,7 @@ def check(run, project):
                 isinstance(d, ast.Call) and call_name(d) in ("list", "dict", "set", "defaultdict", "SizeConstraintList", "SizeConstraint"))
             run.ob("P3", ok, f"{ref}: default `{norm(d)[:30]}` is immutable", "a mutable default argument is shared between calls",
                    module=mod, node=d, func=ref.qual, construct=f"default {norm(d)[:60]}")
-        # P2 memoisation
-        for dec in fn.decorator_list:
-            target = dec.func if isinstance(dec, ast.Call) else dec
-            dn = norm(target)
-            if dn not in MEMO:
-                continue
-            cap = None
-            unbounded = dn.endswith("cache") and not dn.endswith("lru_cache")
-            if isinstance(dec, ast.Call):
-                ms = next((k.value for k in dec.keywords if k.arg == "maxsize"), dec.args[0] if dec.args else None)
-                if ms is None:
-                    cap = 128
-                elif isinstance(ms, ast.Constant) and ms.value is None:
-                    unbounded = True
-                elif isinstance(ms, ast.Constant) and isinstance(ms.value, int):
-                    cap = ms.value
-            elif not unbounded:
-                cap = 128
-            ok = unbounded or (cap is not None and cap >= keyspace)
-            run.ob("P2", ok, f"{ref}: memoisation `{norm(dec)}` is identity-stable",
-                   f"`{norm(dec)}` keeps {cap} result(s) but is keyed by {keyspace} parameter-area classes: a later decode evicts the "
-                   "synthesised type and re-creates it, so objects of two decodes of the same input are of different types "
-                   "(compare unequal)", module=mod, node=dec, func=ref.qual, construct=f"@{norm(dec)}")
+        check_memo(run, ref, keyspace)
     # P3: module-level generator objects in reachable modules
     for mname in sorted({r.mod.name for r in reach.values()}):
         mod = project.module(mname)
